@@ -101,11 +101,17 @@ func (g *synGen) expr(depth int) zr.Expr {
 		return d
 	case 6:
 		c := zr.Call{CallPart: g.callPart(depth - 1)}
+		if r.Intn(4) == 0 {
+			c.Yield = g.name()
+		}
 		return c
 	case 7:
 		m := zr.MCall{Recv: g.postfixBase(depth - 1)}
 		for i := 0; i < 1+r.Intn(3); i++ {
 			m.Chain = append(m.Chain, g.callPart(depth-1))
+		}
+		if r.Intn(3) == 0 {
+			m.Yield = g.name() // 得到 belongs to the whole chain, also in expression position
 		}
 		return m
 	case 8:
